@@ -102,6 +102,38 @@ def roundtrip(sym, rtype, n_short, n_ver, with_bp, bp_type):
         sym.check("keys", sorted(got.keys()) == ["short", "type", "version"])
 
 
+def history(sym, first_layered, rtype, bp_type):
+    """the parts returned for an id never depend on which ids were parsed before, nor on what the caller did with earlier
+    results: a layered id and the plain id of the same release are parsed one after the other (both orders)"""
+    short = sym.str("short", 3, minlen=1, alphabet=["a-z"])
+    version = sym.str("version", 3, minlen=1, alphabet=["0-9", "."])
+    bp_short = sym.str("bp_short", 3, minlen=1, alphabet=["a-z"])
+    bp_version = sym.str("bp_version", 2, minlen=1, alphabet=["0-9"])
+    try:
+        plain = create_release_id(short, version, rtype)
+        layered = create_release_id(short, version, rtype, bp_short, bp_version, bp_type)
+    except ValueError:
+        return
+    sym.cover("created")
+    ids = [layered, plain] if first_layered else [plain, layered]
+    first = parse_release_id(ids[0])
+    first["short"] = "edited"          # the caller owns what it was given
+    got = parse_release_id(ids[1])
+    sym.cover("parsed")
+    sym.check("short", got["short"] == short)
+    sym.check("version", got["version"] == version)
+    sym.check("type", got["type"] == rtype)
+    if first_layered:
+        sym.check("keys-of-the-plain-id", sorted(got.keys()) == ["short", "type", "version"])
+    else:
+        sym.check("bp_short", got["bp_short"] == bp_short)
+        sym.check("bp_version", got["bp_version"] == bp_version)
+        sym.check("bp_type", got["bp_type"] == bp_type)
+        sym.check("keys-of-the-layered-id", sorted(got.keys()) == ["bp_short", "bp_type", "bp_version", "short", "type", "version"])
+    again = parse_release_id(ids[1])
+    sym.check("same-answer-again", sorted(again.items()) == sorted(got.items()))
+
+
 def jobs(tier, seed):
     big = tier == "thorough"
     n = 16 if big else 10
@@ -112,6 +144,9 @@ def jobs(tier, seed):
         {"harness": "create_refuses", "params": {"n": 8 if big else 6, "with_bp": False}},
         {"harness": "create_refuses", "params": {"n": 6 if big else 4, "with_bp": True}},
     ]
+    for fl in (True, False):
+        for rtype, bpt in (("updates", "ga"), ("ga", "updates"), ("eus", "ga")) if not big else [(a, b) for a in ("ga", "updates", "eus", "fast") for b in ("ga", "updates")]:
+            out.append({"harness": "history", "params": {"first_layered": fl, "rtype": rtype, "bp_type": bpt}})
     ns, nv = (10, 8) if big else (6, 5)
     for rtype in RELEASE_TYPES:
         out.append({"harness": "roundtrip", "params": {"rtype": rtype, "n_short": ns, "n_ver": nv, "with_bp": False, "bp_type": None}})
@@ -124,7 +159,7 @@ def jobs(tier, seed):
 
 
 META = {
-    "expected_covers": {"pred_short": ["evaluated"], "pred_type": ["evaluated"], "pred_version": ["evaluated"],
+    "expected_covers": {"history": ["created", "parsed"], "pred_short": ["evaluated"], "pred_type": ["evaluated"], "pred_version": ["evaluated"],
                         "create_refuses": ["called"], "roundtrip": ["created", "parsed"]},
     "assumptions": [
         "round trip: versions free of '-' and '@' (the property's own quantifier)",
